@@ -3,7 +3,7 @@
    order-independent function of it.  Self-contained: only Model/*.vo is required (the few facts about str_cmp /
    insert_sorted that also exist in Literals.v / NormalForm.v are re-proved here so that this file does not depend on
    files other agents are rebuilding).  No axioms. *)
-From Coq Require Import List Bool Arith NArith Lia Permutation.
+From Coq Require Import List Bool Arith NArith ZArith Lia Permutation.
 From J2M.Model Require Import Base Registry Optimize Layout Emit.
 Import ListNotations.
 Local Open Scope list_scope.
@@ -457,7 +457,8 @@ Proof.
   - rewrite dec_digits_S. destruct (n <? 10) eqn:E.
     + apply N.ltb_lt in E. cbn [undec]. lia.
     + apply N.ltb_ge in E. rewrite undec_app, IH.
-      * pose proof (N.div_mod n 10 ltac:(lia)) as Hdm. clear Hn IH. lia.
+      * pose proof (N.div_mod n 10 ltac:(lia)) as Hdm. clear Hn IH.
+        remember (n / 10) as q eqn:Eq. remember (n mod 10) as r eqn:Er. clear Eq Er. lia.
       * rewrite Nat2N.inj_succ, N.pow_succ_r' in Hn. apply N.div_lt_upper_bound; [lia | exact Hn].
 Qed.
 
@@ -481,7 +482,9 @@ Theorem index_str_inj_gen a b : idx_ok a -> idx_ok b -> index_str a = index_str 
 Proof.
   unfold idx_ok, index_str. intros Ha Hb E. apply app_inj_tail in E. destruct E as [E1 E2].
   apply (dec_digits_inj 20) in E1; [|exact Ha | exact Hb].
-  pose proof (N.div_mod a 26 ltac:(lia)). pose proof (N.div_mod b 26 ltac:(lia)). lia.
+  pose proof (N.div_mod a 26 ltac:(lia)) as Hda. pose proof (N.div_mod b 26 ltac:(lia)) as Hdb. clear Ha Hb.
+  remember (a / 26) as qa eqn:E3. remember (b / 26) as qb eqn:E4. remember (a mod 26) as ra eqn:E5. remember (b mod 26) as rb eqn:E6.
+  clear E3 E4 E5 E6. lia.
 Qed.
 Theorem index_str_inj a b : a < 26 * 10 ^ 18 -> b < 26 * 10 ^ 18 -> index_str a = index_str b -> a = b.
 Proof. intros Ha Hb. apply index_str_inj_gen; apply idx_ok_bound; assumption. Qed.
@@ -564,6 +567,371 @@ Proof.
 Qed.
 Local Close Scope N_scope.
 
+(* ================================================================== *)
+(* O7. extract_root = the parentless ancestors, as a set                *)
+(* ================================================================== *)
+Lemma length_filter_le {A} (f : A -> bool) (l : list A) : length (filter f l) <= length l.
+Proof. induction l as [|x r IH]; simpl; [lia|]. destruct (f x); simpl; lia. Qed.
+
+Section Roots.
+  Variable g : graph.
+
+  Definition hasp (q : N) : bool := match parent_ptrs g q with [] => false | _ => true end.
+  Definition nop (q : N) : bool := match parent_ptrs g q with [] => true | _ => false end.
+  Lemma hasp_true q : hasp q = true <-> parent_ptrs g q <> [].
+  Proof. unfold hasp. destruct (parent_ptrs g q); split; intros H; congruence. Qed.
+  Lemma nop_true q : nop q = true <-> parent_ptrs g q = [].
+  Proof. unfold nop. destruct (parent_ptrs g q); split; intros H; congruence. Qed.
+
+  Lemma roots_from_S f m rest seen acc :
+    roots_from g (S f) (m :: rest) seen acc =
+    if memN m seen then roots_from g f rest seen acc
+    else roots_from g f (rest ++ filter hasp (parents_of g m)) (m :: seen)
+                    (fold_left addN (filter nop (parents_of g m)) acc).
+  Proof. reflexivity. Qed.
+  Lemma roots_from_nil fuel seen acc : roots_from g fuel [] seen acc = acc.
+  Proof. destruct fuel; reflexivity. Qed.
+
+  (* one step upward: to a parent that has parents itself *)
+  Inductive reach : N -> N -> Prop :=
+  | reach_refl a : reach a a
+  | reach_step a b c : In b (parents_of g a) -> parent_ptrs g b <> [] -> reach b c -> reach a c.
+  (* r is a root above m: a parentless parent of some model reached from m *)
+  Definition is_root_of (m r : N) : Prop :=
+    exists m', reach m m' /\ In r (parents_of g m') /\ parent_ptrs g r = [].
+
+  (* soundness, any fuel *)
+  Lemma roots_from_sound : forall fuel frontier seen acc r,
+    In r (roots_from g fuel frontier seen acc) -> In r acc \/ exists f, In f frontier /\ is_root_of f r.
+  Proof.
+    induction fuel as [|fu IH]; intros frontier seen acc r Hr; [left; exact Hr|].
+    destruct frontier as [|m rest]; [left; exact Hr|]. rewrite roots_from_S in Hr.
+    destruct (memN m seen).
+    - destruct (IH _ _ _ _ Hr) as [H|[f [Hf H]]]; [left; exact H|]. right. exists f. split; [right; exact Hf | exact H].
+    - destruct (IH _ _ _ _ Hr) as [H|[f [Hf H]]].
+      + apply In_fold_addN in H. destruct H as [H|H]; [left; exact H|]. apply filter_In in H. destruct H as [H1 H2].
+        right. exists m. split; [left; reflexivity|]. exists m. split; [apply reach_refl|]. split; [exact H1 | apply nop_true; exact H2].
+      + right. apply in_app_iff in Hf. destruct Hf as [Hf|Hf]; [exists f; split; [right; exact Hf | exact H]|].
+        apply filter_In in Hf. destruct Hf as [H1 H2]. exists m. split; [left; reflexivity|].
+        destruct H as [m' [Hre Hm']]. exists m'. split; [|exact Hm'].
+        eapply reach_step; [exact H1 | apply hasp_true; exact H2 | exact Hre].
+  Qed.
+
+  (* fuel: every non-skipping step marks a model seen and thereby retires all pointers that target it; it pushes at
+     most that many models on the frontier *)
+  Definition unseen_in (l : list ptr) (seen : list N) : nat :=
+    length (filter (fun p => negb (memN (p_tgt p) seen)) l).
+  Lemma unseen_cons m seen : memN m seen = false -> forall l,
+    unseen_in l seen = unseen_in l (m :: seen) + length (filter (fun p => N.eqb (p_tgt p) m) l).
+  Proof.
+    intros E. unfold unseen_in. induction l as [|p r IH]; [reflexivity|].
+    cbn [filter]. change (memN (p_tgt p) (m :: seen)) with (N.eqb (p_tgt p) m || memN (p_tgt p) seen).
+    destruct (N.eqb (p_tgt p) m) eqn:E1.
+    - apply N.eqb_eq in E1. rewrite E1, E. cbn [negb orb length]. lia.
+    - cbn [orb]. destruct (memN (p_tgt p) seen); cbn [negb length]; lia.
+  Qed.
+  Lemma length_parents_le m : length (parents_of g m) <= length (ptrs_to g m).
+  Proof.
+    unfold parents_of. eapply Nat.le_trans; [apply length_nodupN|]. unfold parent_ptrs.
+    induction (ptrs_to g m) as [|p r IH]; simpl; [lia|]. rewrite app_length. destruct (p_par p); simpl; lia.
+  Qed.
+
+  Definition Inv (frontier seen acc : list N) : Prop :=
+    forall s q, In s seen -> In q (parents_of g s) ->
+      (parent_ptrs g q <> [] -> In q seen \/ In q frontier) /\ (parent_ptrs g q = [] -> In q acc).
+
+  (* completeness, enough fuel: the run ends in a state whose [seen] is closed under upward steps *)
+  Lemma roots_from_complete : forall fuel frontier seen acc,
+    length frontier + unseen_in (ps g) seen <= fuel -> Inv frontier seen acc ->
+    exists seenF, Inv [] seenF (roots_from g fuel frontier seen acc) /\ incl seen seenF /\ incl frontier seenF
+                  /\ incl acc (roots_from g fuel frontier seen acc).
+  Proof.
+    induction fuel as [|fu IH]; intros frontier seen acc Hfuel HInv.
+    - destruct frontier as [|m rest]; [|simpl in Hfuel; lia]. exists seen. simpl.
+      split; [exact HInv|]. split; [apply incl_refl|]. split; [intros x []|apply incl_refl].
+    - destruct frontier as [|m rest].
+      { exists seen. simpl. split; [exact HInv|]. split; [apply incl_refl|]. split; [intros x []|apply incl_refl]. }
+      rewrite roots_from_S. destruct (memN m seen) eqn:E.
+      + destruct (IH rest seen acc) as [sF [I1 [I2 [I3 I4]]]].
+        * simpl in Hfuel. lia.
+        * intros s q Hs Hq. destruct (HInv s q Hs Hq) as [A B]. split; [|exact B]. intros Hne.
+          destruct (A Hne) as [H|[<-|H]]; [left; exact H | left; apply memN_In; exact E | right; exact H].
+        * exists sF. split; [exact I1|]. split; [exact I2|]. split; [|exact I4].
+          intros x [<-|Hx]; [apply I2, memN_In, E | apply I3, Hx].
+      + destruct (IH (rest ++ filter hasp (parents_of g m)) (m :: seen)
+                     (fold_left addN (filter nop (parents_of g m)) acc)) as [sF [I1 [I2 [I3 I4]]]].
+        * rewrite app_length. pose proof (unseen_cons m seen E (ps g)) as Hu.
+          pose proof (length_filter_le hasp (parents_of g m)) as H1. pose proof (length_parents_le m) as H2.
+          unfold ptrs_to in H2. simpl in Hfuel. lia.
+        * intros s q [<-|Hs] Hq.
+          -- split; intros Hp.
+             ++ right. apply in_app_iff. right. apply filter_In. split; [exact Hq | apply hasp_true; exact Hp].
+             ++ apply In_fold_addN. right. apply filter_In. split; [exact Hq | apply nop_true; exact Hp].
+          -- destruct (HInv s q Hs Hq) as [A B]. split; intros Hp.
+             ++ destruct (A Hp) as [H|[<-|H]];
+                  [left; right; exact H | left; left; reflexivity | right; apply in_app_iff; left; exact H].
+             ++ apply In_fold_addN. left. apply B. exact Hp.
+        * exists sF. split; [exact I1|]. split; [intros x Hx; apply I2; right; exact Hx|]. split.
+          -- intros x [<-|Hx]; [apply I2; left; reflexivity | apply I3; apply in_app_iff; left; exact Hx].
+          -- intros x Hx. apply I4. apply In_fold_addN. left. exact Hx.
+  Qed.
+
+  Lemma Inv_closed seenF R : Inv [] seenF R -> forall a b, reach a b -> In a seenF -> In b seenF.
+  Proof.
+    intros HI a b Hre. induction Hre as [a|a b c H1 H2 Hre IH]; intros Ha; [exact Ha|].
+    apply IH. destruct (HI a b Ha H1) as [A _]. destruct (A H2) as [H|[]]. exact H.
+  Qed.
+
+  (* "enough fuel" form *)
+  Theorem roots_from_spec fuel m : 1 + length (ps g) <= fuel ->
+    forall r, In r (roots_from g fuel [m] [] []) <-> is_root_of m r.
+  Proof.
+    intros Hfuel r. split.
+    - intros Hr. destruct (roots_from_sound _ _ _ _ _ Hr) as [[]|[f [[<-|[]] H]]]. exact H.
+    - intros [m' [Hre [H1 H2]]].
+      destruct (roots_from_complete fuel [m] [] []) as [sF [I1 [_ [I3 _]]]].
+      + unfold unseen_in. pose proof (length_filter_le (fun p => negb (memN (p_tgt p) [])) (ps g)). cbn [length]. lia.
+      + intros s q [].
+      + assert (Hm' : In m' sF) by (apply (Inv_closed _ _ I1 m m' Hre); apply I3; left; reflexivity).
+        destruct (I1 m' r Hm' H1) as [_ B]. apply B. exact H2.
+  Qed.
+
+  (* the model's fuel is enough: extract_root is exactly the set of parentless ancestors-of-parents *)
+  Theorem extract_root_spec m r : In r (extract_root g m) <-> is_root_of m r.
+  Proof.
+    unfold extract_root. apply roots_from_spec.
+    change (S (length (ms g)) * S (length (ps g))) with (S (length (ps g)) + length (ms g) * S (length (ps g))). lia.
+  Qed.
+
+  Lemma roots_from_NoDup : forall fuel frontier seen acc, NoDup acc -> NoDup (roots_from g fuel frontier seen acc).
+  Proof.
+    induction fuel as [|fu IH]; intros frontier seen acc H; [exact H|].
+    destruct frontier as [|m rest]; [exact H|]. rewrite roots_from_S. destruct (memN m seen); [apply IH; exact H|].
+    apply IH. apply NoDup_fold_addN. exact H.
+  Qed.
+  Lemma extract_root_NoDup m : NoDup (extract_root g m).
+  Proof. apply roots_from_NoDup. constructor. Qed.
+End Roots.
+
+Section RootsTable.
+  Variables g g' : graph.
+  Hypothesis Hps : same_elts (ps g) (ps g').
+  Lemma reach_ext a b : reach g a b -> reach g' a b.
+  Proof.
+    induction 1 as [a|a b c H1 H2 Hre IH]; [apply reach_refl|].
+    eapply reach_step; [apply (parents_of_ext g g' Hps); exact H1 | | exact IH].
+    intros E. apply H2. apply (parent_ptrs_nil_ext g g' Hps). exact E.
+  Qed.
+  Lemma is_root_of_ext m r : is_root_of g m r -> is_root_of g' m r.
+  Proof.
+    intros [m' [Hre [H1 H2]]]. exists m'. split; [apply reach_ext; exact Hre|].
+    split; [apply (parents_of_ext g g' Hps); exact H1 | apply (parent_ptrs_nil_ext g g' Hps); exact H2].
+  Qed.
+End RootsTable.
+
+Theorem extract_root_ext g g' : same_elts (ps g) (ps g') -> forall m, same_elts (extract_root g m) (extract_root g' m).
+Proof.
+  intros H m r. rewrite !extract_root_spec.
+  split; apply is_root_of_ext; [exact H | apply same_elts_sym; exact H].
+Qed.
+
+(* as requested; [ms g = ms g'] is not needed (the fuel of either run is enough by extract_root_spec) *)
+Theorem extract_root_perm g g' : Permutation (ps g) (ps g') -> ms g = ms g' ->
+  forall m r, In r (extract_root g m) <-> In r (extract_root g' m).
+Proof. intros H _ m. apply extract_root_ext, perm_same_elts, H. Qed.
+Theorem extract_root_perm_multiset g g' : Permutation (ps g) (ps g') ->
+  forall m, Permutation (extract_root g m) (extract_root g' m).
+Proof.
+  intros H m. apply NoDup_Permutation; [apply extract_root_NoDup | apply extract_root_NoDup|].
+  apply extract_root_ext, perm_same_elts, H.
+Qed.
+
+(* ================================================================== *)
+(* L. Capstone for the layout: compose_nested / compose_flat do not     *)
+(*    depend on the order of the pointer table                          *)
+(* ================================================================== *)
+Lemma flat_map_perm {A B} (f : A -> list B) (l l' : list A) :
+  Permutation l l' -> Permutation (flat_map f l) (flat_map f l').
+Proof.
+  induction 1 as [|x l l' HP IH|x y l|l l' l'' H1 IH1 H2 IH2]; simpl.
+  - constructor.
+  - apply Permutation_app_head. exact IH.
+  - rewrite !app_assoc. apply Permutation_app_tail. apply Permutation_app_comm.
+  - eapply Permutation_trans; eassumption.
+Qed.
+
+(* a fold whose step is right-commutative does not depend on the order *)
+Lemma fold_left_perm {A B} (f : A -> B -> A) : (forall a x y, f (f a x) y = f (f a y) x) ->
+  forall l l', Permutation l l' -> forall a, fold_left f l a = fold_left f l' a.
+Proof.
+  intros Hc. induction 1 as [|x l l' HP IH|x y l|l l' l'' H1 IH1 H2 IH2]; intros a; simpl.
+  - reflexivity.
+  - apply IH.
+  - rewrite Hc. reflexivity.
+  - rewrite IH1. apply IH2.
+Qed.
+Lemma fold_left_ext_fn {A B} (f f' : A -> B -> A) : (forall a x, f a x = f' a x) ->
+  forall l a, fold_left f l a = fold_left f' l a.
+Proof. intros H. induction l as [|x r IH]; intros a; simpl; [reflexivity|]. rewrite H. apply IH. Qed.
+
+(* min(...) over positions *)
+Definition omin (a : option nat) (y : nat) : option nat :=
+  match a with None => Some y | Some x => Some (Nat.min x y) end.
+Lemma min_list_fold l : min_list l = fold_left omin l None.
+Proof.
+  destruct l as [|x r]; [reflexivity|]. simpl. revert x.
+  induction r as [|y r IH]; intros x; simpl; [reflexivity|]. apply IH.
+Qed.
+Lemma min_list_perm l l' : Permutation l l' -> min_list l = min_list l'.
+Proof.
+  intros HP. rewrite !min_list_fold. apply fold_left_perm; [|exact HP].
+  intros [a|] x y; simpl; f_equal; lia.
+Qed.
+
+(* max(...) over positions, with a default for the empty list *)
+Definition zmax_or (d : Z) (l : list Z) : Z := match l with [] => d | x :: r => fold_left Z.max r x end.
+Definition omax (a : option Z) (y : Z) : option Z :=
+  match a with None => Some y | Some x => Some (Z.max x y) end.
+Lemma zmax_or_fold d l : zmax_or d l = match fold_left omax l None with Some v => v | None => d end.
+Proof.
+  destruct l as [|x r]; [reflexivity|]. simpl. revert x.
+  induction r as [|y r IH]; intros x; simpl; [reflexivity|]. apply IH.
+Qed.
+Lemma zmax_or_perm d l l' : Permutation l l' -> zmax_or d l = zmax_or d l'.
+Proof.
+  intros HP. rewrite !zmax_or_fold. rewrite (fold_left_perm omax) with (l' := l'); [reflexivity | | exact HP].
+  intros [a|] x y; simpl; f_equal; lia.
+Qed.
+
+(* nested_step / flat_step read the graph only through parents_of, extract_root, has_root_ptr and the emptiness of
+   parent_ptrs: the same bodies with these four made parameters *)
+Definition nested_core (pars roots : list N) (hasroot isnil : bool) (st : nstate) (m : N) : option nstate :=
+  if isnil then
+    (if hasroot then Some {| ns_roots := ns_roots st ++ [m]; ns_nested := ns_nested st; ns_inj := ns_inj st; ns_ix := ns_ix st |}
+     else None)
+  else
+    if hasroot || (Nat.ltb 1 (length pars) && Nat.ltb 1 (length roots)) then
+      match min_list (flat_map (fun r => match index_of r (ns_roots st) 0 with Some i => [i] | None => [] end) roots) with
+      | Some pos => Some {| ns_roots := insert_at pos m (ns_roots st); ns_nested := ns_nested st; ns_inj := ns_inj st; ns_ix := ns_ix st |}
+      | None => Some {| ns_roots := insert_at (ns_ix st) m (ns_roots st); ns_nested := ns_nested st; ns_inj := ns_inj st; ns_ix := S (ns_ix st) |}
+      end
+    else if Nat.ltb 1 (length pars) && Nat.eqb (length roots) 1 then
+      let p := hd 0%N roots in
+      Some {| ns_roots := ns_roots st; ns_nested := set_children (ns_nested st) p (m :: children (ns_nested st) p);
+              ns_inj := ns_inj st ++ [(m, p)]; ns_ix := ns_ix st |}
+    else
+      let p := min_parent pars in
+      Some {| ns_roots := ns_roots st; ns_nested := set_children (ns_nested st) p (children (ns_nested st) p ++ [m]);
+              ns_inj := ns_inj st; ns_ix := ns_ix st |}.
+
+Lemma nested_step_core g st m :
+  nested_step g (Some st) m = nested_core (parents_of g m) (extract_root g m) (has_root_ptr g m) (nop g m) st m.
+Proof. unfold nested_step, nested_core, nop. destruct (parent_ptrs g m); reflexivity. Qed.
+
+Definition flat_core (pars : list N) (nroots : nat) (hasroot isnil : bool) (st : fstate) (m : N) : option fstate :=
+  let key := index_str m in
+  if isnil then
+    (if hasroot then
+       let d := match pd_get (fs_pos st) ROOT with Some _ => fs_pos st | None => fs_pos st ++ [(ROOT, 0%Z)] end in
+       let pos := match pd_get d ROOT with Some p => p | None => 0%Z end in
+       Some {| fs_list := insert_at (Z.to_nat pos) m (fs_list st); fs_pos := update_position d ROOT (pos + 1)%Z;
+               fs_top := fs_top st ++ [m] |}
+     else None)
+  else
+    let '(pos, d) :=
+      if hasroot || (Nat.ltb 1 (length pars) && Nat.leb 1 nroots) then
+        let pkeys := map index_str pars ++ (if existsb (fun p => memN p (fs_top st)) pars then [ROOT] else []) in
+        let joined := join HASH (set_of_strs pkeys) in
+        let pp := flat_map (fun k => match pd_get (fs_pos st) k with Some p => [p] | None => [] end) (pkeys ++ [joined]) in
+        let pos := zmax_or (Z.of_nat (length (fs_list st))) pp in
+        (pos, update_position (fs_pos st) joined (pos + 1)%Z)
+      else
+        let pk := index_str (min_parent pars) in
+        let pos := match pd_get (fs_pos st) pk with Some p => p | None => Z.of_nat (length (fs_list st)) end in
+        (pos, update_position (fs_pos st) pk (pos + 1)%Z) in
+    let d := update_position d key (pos + 1)%Z in
+    Some {| fs_list := insert_at (Z.to_nat pos) m (fs_list st); fs_pos := d; fs_top := fs_top st |}.
+
+Lemma flat_step_core g st m :
+  flat_step g (Some st) m = flat_core (parents_of g m) (length (extract_root g m)) (has_root_ptr g m) (nop g m) st m.
+Proof. unfold flat_step, flat_core, nop. destruct (parent_ptrs g m); reflexivity. Qed.
+
+Lemma nested_core_perm pars pars' roots roots' h i st m :
+  Permutation pars pars' -> Permutation roots roots' -> (forall x, In x pars -> idx_ok x) ->
+  nested_core pars roots h i st m = nested_core pars' roots' h i st m.
+Proof.
+  intros HP HR Hok. unfold nested_core. destruct i; [reflexivity|].
+  rewrite <- (Permutation_length HP), <- (Permutation_length HR).
+  rewrite <- (min_parent_ext pars pars' (perm_same_elts _ _ HP) Hok).
+  rewrite <- (min_list_perm _ _ (flat_map_perm (fun r => match index_of r (ns_roots st) 0 with Some i => [i] | None => [] end) _ _ HR)).
+  destruct (h || (Nat.ltb 1 (length pars) && Nat.ltb 1 (length roots))); [reflexivity|].
+  destruct (Nat.ltb 1 (length pars) && Nat.eqb (length roots) 1) eqn:C; [|reflexivity].
+  apply andb_true_iff in C. destruct C as [_ C]. apply Nat.eqb_eq in C.
+  destruct roots as [|x [|y r]]; try discriminate. apply Permutation_length_1_inv in HR. rewrite HR. reflexivity.
+Qed.
+
+Lemma flat_core_perm pars pars' n h i st m :
+  Permutation pars pars' -> (forall x, In x pars -> idx_ok x) ->
+  flat_core pars n h i st m = flat_core pars' n h i st m.
+Proof.
+  intros HP Hok. unfold flat_core. cbv zeta. destruct i; [reflexivity|].
+  rewrite <- (Permutation_length HP).
+  rewrite <- (min_parent_ext pars pars' (perm_same_elts _ _ HP) Hok).
+  rewrite <- (existsb_same_elts (fun p => memN p (fs_top st)) (fun p => memN p (fs_top st)) pars pars'
+                (perm_same_elts _ _ HP) (fun x => eq_refl)).
+  set (X := if existsb (fun p => memN p (fs_top st)) pars then [ROOT] else []).
+  assert (HPk : Permutation (map index_str pars ++ X) (map index_str pars' ++ X))
+    by (apply Permutation_app_tail, Permutation_map, HP).
+  rewrite <- (set_of_strs_perm _ _ HPk).
+  set (J := join HASH (set_of_strs (map index_str pars ++ X))).
+  rewrite <- (zmax_or_perm (Z.of_nat (length (fs_list st))) _ _
+               (flat_map_perm (fun k => match pd_get (fs_pos st) k with Some p => [p] | None => [] end) _ _
+                  (Permutation_app_tail [J] HPk))).
+  reflexivity.
+Qed.
+
+(* every parent recorded in the pointer table lies in the range where utils.Index is modelled faithfully *)
+Definition parents_ok (g : graph) : Prop := forall p q, In p (ps g) -> p_par p = Some q -> idx_ok q.
+Lemma parents_ok_bound g : (forall p q, In p (ps g) -> p_par p = Some q -> (q < 26 * 10 ^ 18)%N) -> parents_ok g.
+Proof. intros H p q Hp Hq. apply idx_ok_bound. exact (H p q Hp Hq). Qed.
+
+Section LayoutPerm.
+  Variables g g' : graph.
+  Hypothesis HP : Permutation (ps g) (ps g').
+  Hypothesis Hok : parents_ok g.
+
+  Lemma nop_perm m : nop g m = nop g' m.
+  Proof. apply eq_true_iff_eq. rewrite !nop_true. apply parent_ptrs_nil_ext, perm_same_elts, HP. Qed.
+  Lemma parents_idx_ok m x : In x (parents_of g m) -> idx_ok x.
+  Proof. intros H. apply In_parents_of in H. destruct H as [p [H1 [_ H2]]]. exact (Hok p x H1 H2). Qed.
+
+  Theorem nested_step_perm ost m : nested_step g ost m = nested_step g' ost m.
+  Proof.
+    destruct ost as [st|]; [|reflexivity]. rewrite !nested_step_core.
+    rewrite <- (has_root_ptr_ext g g' (perm_same_elts _ _ HP) m), <- (nop_perm m).
+    apply nested_core_perm; [apply parents_of_perm_multiset, HP | apply extract_root_perm_multiset, HP | apply parents_idx_ok].
+  Qed.
+  Theorem flat_step_perm ost m : flat_step g ost m = flat_step g' ost m.
+  Proof.
+    destruct ost as [st|]; [|reflexivity]. rewrite !flat_step_core.
+    rewrite <- (has_root_ptr_ext g g' (perm_same_elts _ _ HP) m), <- (nop_perm m).
+    rewrite <- (Permutation_length (extract_root_perm_multiset g g' HP m)).
+    apply flat_core_perm; [apply parents_of_perm_multiset, HP | apply parents_idx_ok].
+  Qed.
+
+  Hypothesis Hms : ms g = ms g'.
+  Theorem compose_nested_perm : compose_nested g = compose_nested g'.
+  Proof.
+    unfold compose_nested. rewrite <- Hms.
+    rewrite (fold_left_ext_fn (nested_step g) (nested_step g') nested_step_perm). reflexivity.
+  Qed.
+  Theorem compose_flat_perm : compose_flat g = compose_flat g'.
+  Proof.
+    unfold compose_flat. rewrite <- Hms.
+    rewrite (fold_left_ext_fn (flat_step g) (flat_step g') flat_step_perm). reflexivity.
+  Qed.
+End LayoutPerm.
+
 Print Assumptions str_cmp_eq_iff.
 Print Assumptions str_cmp_antisym.
 Print Assumptions str_cmp_lt_trans.
@@ -582,3 +950,10 @@ Print Assumptions parent_ptrs_nil_perm.
 Print Assumptions index_str_inj.
 Print Assumptions min_parent_spec.
 Print Assumptions min_parent_perm.
+Print Assumptions extract_root_spec.
+Print Assumptions extract_root_perm.
+Print Assumptions extract_root_perm_multiset.
+Print Assumptions nested_step_perm.
+Print Assumptions flat_step_perm.
+Print Assumptions compose_nested_perm.
+Print Assumptions compose_flat_perm.
